@@ -277,10 +277,10 @@ func init() {
 	}, propMeta{Technique: "dependence rule on the registry append over go/ssa + guard rule at every consumer of the registry", LevelText: "the single registration site is decided.", LevelNote: "registry anchored by name (BuiltinClasses)", DesignRef: "4 ORD-flat; 5 C20"})
 
 	claim("C21", PropertySpec{
-		Engines: []EngineSpec{all("AL")},
-		Clause: "Narrow clause on the alias rows of the type vocabulary: Int and Integer return the same table value; every OptionalX is built by the same union constructor from (value of X, nil value) as the `?X` notation; the factory of every DefaultX has the constructor normal form of the factory of X plus exactly hasDefault and isBuiltin (what the loader sets for is_default); in the argument parser `?` and `*` reach the same flag stores as is_default and is_asterisk; `A|B` and [A, B] go through one union constructor; wherever the loader splits a notation string on `|`, the `?` and `*` prefixes of that string have been interpreted first (so `?A|B` is [A|B, NilClass]).",
+		Engines: []EngineSpec{all("AL"), rules("LA", "LA-copy")},
+		Clause: "The flags the loader sets on a type under construction are set before its value is copied into the result (LA-copy: no field store or receiver-mutating call on a local struct of the loader is reachable, within one iteration, from a by-value copy of it into a container — a flag set after `result = append(result, baseType)` is lost for the copy, so the long form and the alias form of the same argument stop carrying the same flags). Narrow clause on the alias rows of the type vocabulary: Int and Integer return the same table value; every OptionalX is built by the same union constructor from (value of X, nil value) as the `?X` notation; the factory of every DefaultX has the constructor normal form of the factory of X plus exactly hasDefault and isBuiltin (what the loader sets for is_default); in the argument parser `?` and `*` reach the same flag stores as is_default and is_asterisk; `A|B` and [A, B] go through one union constructor; wherever the loader splits a notation string on `|`, the `?` and `*` prefixes of that string have been interpreted first (so `?A|B` is [A|B, NilClass]).",
 		NotCovered: "parseTypeString on arbitrary strings (deeper nesting, whitespace), rendering of signatures, `[T]`",
-	}, propMeta{Technique: "constant folding of straight-line factory functions into constructor normal forms (go/ssa) + agreement rules over the type-checked AST of the loader", LevelText: "all 13 alias rows are enumerated and decided; a factory that is not straight-line is undecided, which fails the check.", LevelNote: "labels, table values and factories are resolved from the type-name switch and the package-level initialisers", DesignRef: "5 C21"})
+	}, propMeta{Technique: "constant folding of straight-line factory functions into constructor normal forms (go/ssa) + agreement rules over the type-checked AST of the loader + write-after-value-copy analysis of the loader's local structs over the SSA CFG", LevelText: "all 13 alias rows are enumerated and decided; a factory that is not straight-line is undecided, which fails the check.", LevelNote: "labels, table values and factories are resolved from the type-name switch and the package-level initialisers", DesignRef: "5 C21"})
 
 	claim("C22", PropertySpec{
 		Engines: []EngineSpec{rules("ORD", "ORD-row"), rules("PAIR", "PAIR-bal")},
@@ -289,8 +289,8 @@ func init() {
 	}, propMeta{Technique: "ordering rule over the SSA entry block with call-graph 'reads tokens' summaries, extended over static call chains back to the registry dispatcher", LevelText: "all 8 definition-row captures are enumerated and decided.", LevelNote: "row field anchored by name (ErrorRow); comparisons and restores are excluded by def-use", DesignRef: "4 ORD-row; 5 C22"})
 
 	claim("C24", PropertySpec{
-		Engines: []EngineSpec{rules("ORD", "ORD-spec", "ORD-key", "ORD-own")},
-		Clause: "Functions that evaluate on a by-value copy of the parser (condition look-ahead) cannot reach a store to an append-only global log (call points, callee points, special comments, define-info and signature articles) unless the store is dominated by a test of a parser field the look-ahead sets on its copy. Every frame-qualified key (frame accessor followed by class accessor in one concatenation — the call-point and callee-point keys and the navigator's look-up keys among them) reads both halves from the same object, so that the recorder and the navigator name the same method. Every round — the reporting round, which records call points, included — runs on preloaded files as on the target (ORD-own).",
+		Engines: []EngineSpec{rules("ORD", "ORD-spec", "ORD-key", "ORD-own", "ORD-log")},
+		Clause: "An append to one of the logs never depends on a membership test of that log (ORD-log: records carry file and row but no column, so a de-duplicating guard merges two call sites of one row). Functions that evaluate on a by-value copy of the parser (condition look-ahead) cannot reach a store to an append-only global log (call points, callee points, special comments, define-info and signature articles) unless the store is dominated by a test of a parser field the look-ahead sets on its copy. Every frame-qualified key (frame accessor followed by class accessor in one concatenation — the call-point and callee-point keys and the navigator's look-up keys among them) reads both halves from the same object, so that the recorder and the navigator name the same method. Every round — the reporting round, which records call points, included — runs on preloaded files as on the target (ORD-own).",
 		NotCovered: "rows, callee lists",
 	}, propMeta{Technique: "call-graph effect reachability from speculative roots; provenance rule over the type-checked AST for qualified-name keys", LevelText: "all speculative roots and all qualified-name concatenations are enumerated and decided.", LevelNote: "speculative root = by-value Parser parameter that some caller fills with *ptr", DesignRef: "4 ORD-spec; 5 C24"})
 
